@@ -132,7 +132,15 @@ Record observed := mkObs {
 }.
 
 Inductive case :=
-| CVal (n : name) (future : bool) (raw : bytes) (q : oracle) (o : observed).
+| CVal (n : name) (future : bool) (raw : bytes) (q : oracle) (o : observed)
+(** a record that reaches validation WITHOUT UnmarshalRecord: built by NewRecord,
+    [raw] = MarshalRecord of it (so the in-memory envelope is [unmarshal_pb raw] and
+    its node the decoding of Data), [kb] the canonical bytes of the public key;
+    [vwn] = ValidateWithName(rec, n), [vk] = Validate(rec, pk) *)
+| CMem (n : name) (future : bool) (raw : bytes) (kb : bytes) (q : oracle) (vwn vk : result unit).
+
+(** run-length shorthand used by the harness for padded records *)
+Definition rep (x n : Z) : bytes := List.repeat x (Z.to_nat n).
 
 Definition c_parse_pk (q : oracle) (b : bytes) : option bytes := assoc b (q_keys q).
 Definition c_sha (q : oracle) (b : bytes) : bytes :=
@@ -241,5 +249,43 @@ Definition check_case (c : case) : verdict :=
           else if base_ok && um_ok && acc_ok && on_ok && negb (is_ok vv_off) && negb (is_ok vwn_off)
                then VKnown 1
           else VSpecFail
+      end
+  | CMem n future raw kb q vwn vk =>
+      let ppk := c_parse_pk q in
+      let mpk := fun k : bytes => k in
+      let vfy := c_verify q in
+      let sha := c_sha q in
+      let ptm := c_parse_time q in
+      match unmarshal_pb raw with
+      | None => VModelMismatch
+      | Some pb =>
+          match dec_map (oget (p_data pb)) with
+          | None => VModelMismatch
+          | Some nd =>
+              let r := mkRecord pb nd in
+              let now := match acc_validity ptm r with
+                         | Ok eol => if future then eol else eol + 1
+                         | Err _ => 0
+                         end in
+              let m_ok (g : bool) :=
+                res_eqb (validate_with_name_f bytes ppk mpk vfy sha ptm g now r n) vwn &&
+                res_eqb (validate_f bytes vfy ptm g now r kb) vk in
+              let model_ok := bytes_eqb (marshal pb) raw && (m_ok true || m_ok false) in
+              (* the specification: accepted only if the signature verifies under the key
+                 used, not expired, and the SERIALIZED record is within the size limit *)
+              let sigmsg := sig_prefix ++ oget (p_data pb) in
+              let fresh := match acc_validity ptm r with Ok _ => future | Err _ => false end in
+              let size_ok := (blen raw <=? max_record_size) && (pb_size pb <=? max_record_size) in
+              let vwn_spec :=
+                negb (is_ok vwn) ||
+                (match extract_pk bytes ppk mpk sha r n with
+                 | Ok k => vfy k sigmsg (oget (p_sigv2 pb))
+                 | Err _ => false
+                 end && fresh && size_ok && legacy_agrees r) in
+              let vk_spec :=
+                negb (is_ok vk) ||
+                (vfy kb sigmsg (oget (p_sigv2 pb)) && fresh && size_ok && legacy_agrees r) in
+              verdict_of model_ok (vwn_spec && vk_spec)
+          end
       end
   end.
